@@ -42,7 +42,9 @@ SparseObs(b) == [len |-> b.len, capacity |-> b.cap, universe |-> b.universe, nex
 
 NewRL == [kind |-> "rl", len |-> 0, ones |-> 0, bits |-> {}]
 
-\* overflow cannot happen with the small naturals of the model; huge arguments are covered by GenCtor
+\* A run must end at or before usize::MAX.  With the small naturals of the model that can only fail for a huge token: the
+\* generator issues a huge length only with start >= 1 and a huge start only with n >= 1, and both are refused
+\* (further extreme arguments are covered by GenCtor).
 RAccepts(b, start, n) == ~BHuge(start) /\ ~BHuge(n) /\ start >= b.len
 RSet(b, start, n) == IF n = 0 THEN b
                      ELSE [b EXCEPT !.len = start + n, !.ones = b.ones + n, !.bits = b.bits \cup (start..(start + n - 1))]
